@@ -250,6 +250,11 @@ def _(n, T):
               yaml={"default_arg_suffix": ["_a", "_a_b", "_a_b_c"]})]
 
 
+@shape("default_many", langs=("c++",), wraps=ALLW, doc="tutorial.yaml UseDefaultOverload (several required arguments before the defaulted ones)")
+def _(n, T):
+    return [F(n, "int", [P("a", "val", "int"), P("b", "val", "int"), P("c", "val", "int"), P("d", "val", "int", default="7"), P("e", "val", "int", default="11")])]
+
+
 @shape("default_out", langs=("c++",), wraps=("c", "fortran", "python"), doc="cxxlibrary.yaml defaultArgsInOut (intent(out) argument before defaulted ones)")
 def _(n, T):
     return [F(n, "int", [P("a", "val", "int"), P("st", "ptr_out", "int"), P("b", "val", "int", default="2"), P("c", "val", "int", default="9")])]
